@@ -450,6 +450,14 @@ impl AddressGenerator for TagGen {
     }
 }
 
+/// checksum generator of the supplied wasm keeper `wasm:N`: 32 bytes `N`
+struct TagChk(u8);
+impl cw_multi_test::ChecksumGenerator for TagChk {
+    fn checksum(&self, _creator: &Addr, _code_id: u64) -> cosmwasm_std::Checksum {
+        cosmwasm_std::Checksum::from([self.0; 32])
+    }
+}
+
 fn marker_block(n: u64) -> BlockInfo {
     BlockInfo { height: n, time: Timestamp::from_seconds(n), chain_id: format!("mark-{}", n) }
 }
@@ -703,6 +711,7 @@ trait DynApp {
     fn instantiate(&mut self, code_id: u64, label: &str) -> AnyResult<Addr>;
     fn canon(&self, addr: &str) -> Option<Vec<u8>>;
     fn prefix(&self) -> String;
+    fn code_checksum(&self, code_id: u64) -> Option<Vec<u8>>;
 }
 
 impl<B, C, S, D, I, G, T> DynApp for App<B, MockApi, MockStorage, C, WasmKeeper<CMsg, CQuery>, S, D, I, G, T>
@@ -739,6 +748,9 @@ where
     }
     fn canon(&self, addr: &str) -> Option<Vec<u8>> {
         self.api().addr_canonicalize(addr).ok().map(|c| c.to_vec())
+    }
+    fn code_checksum(&self, code_id: u64) -> Option<Vec<u8>> {
+        self.wrap().query_wasm_code_info(code_id).ok().map(|i| i.checksum.as_slice().to_vec())
     }
     fn prefix(&self) -> String {
         let a = self.api().addr_make("x").to_string();
@@ -814,7 +826,15 @@ where
         Step::Api(n) => apply(b.with_api(MockApi::default().with_prefix(PREFIXES[n])), rest),
         Step::Storage(n) => apply(b.with_storage(prefilled(n)), rest),
         Step::Block(n) => apply(b.with_block(marker_block(n)), rest),
-        Step::Wasm(n) => apply(b.with_wasm(WasmKeeper::<CMsg, CQuery>::new().with_address_generator(TagGen(n))), rest),
+        // the keeper is itself assembled by two builder steps, in either order
+        Step::Wasm(n) if n % 2 == 1 => apply(
+            b.with_wasm(WasmKeeper::<CMsg, CQuery>::new().with_address_generator(TagGen(n)).with_checksum_generator(TagChk(n))),
+            rest,
+        ),
+        Step::Wasm(n) => apply(
+            b.with_wasm(WasmKeeper::<CMsg, CQuery>::new().with_checksum_generator(TagChk(n)).with_address_generator(TagGen(n))),
+            rest,
+        ),
     }
 }
 
@@ -1004,11 +1024,19 @@ fn run_op(st: &mut Option<Built>, t: &[&str]) -> String {
         }
         "init-count" => INIT_COUNT.with(|c| c.get()).to_string(),
         "api-prefix" => b.app.prefix(),
-        "wasm-gen" => match b.app.canon(&b.native) {
-            Some(bytes) if bytes.len() == 32 && bytes[..31].iter().all(|x| *x == bytes[0]) && bytes[0] <= 9 => bytes[0].to_string(),
-            Some(_) => "default".into(),
-            None => "?".into(),
-        },
+        "wasm-gen" => {
+            let a = match b.app.canon(&b.native) {
+                Some(bytes) if bytes.len() == 32 && bytes[..31].iter().all(|x| *x == bytes[0]) && bytes[0] <= 9 => bytes[0].to_string(),
+                Some(_) => "default".into(),
+                None => "?".into(),
+            };
+            let c = match b.app.code_checksum(b.code_native) {
+                Some(bytes) if bytes.len() == 32 && bytes.iter().all(|x| *x == bytes[0]) && bytes[0] <= 9 => bytes[0].to_string(),
+                Some(_) => "default".into(),
+                None => "?".into(),
+            };
+            format!("{}/{}", a, c)
+        }
         _ => "bad-op".into(),
     }
 }
